@@ -21,6 +21,7 @@ structure Written where
   bodyLen : Nat
   bodyHash : Nat
   hasBody : Bool
+  x : Extras := {}
 
 structure ReadObs where
   -- (Inhabited below)
@@ -30,14 +31,17 @@ structure ReadObs where
   bodyHash : String
   bodySt : String
   skipped : Bool
+  x : Extras := {}
 
-instance : Inhabited ReadObs := ⟨⟨{}, 0, 0, "", "", false⟩⟩
+instance : Inhabited ReadObs := ⟨⟨{}, 0, 0, "", "", false, {}⟩⟩
 
 structure OState where
   c02 : Bool := false
   fmt : Option WFmt := none
   fmtName : String := ""
   filter : String := "none"
+  wopt : String := ""             -- write options
+  ropt : String := ""             -- read options (both reads)
   aborted : Bool := false
   written : List Written := []
   closeCode : Nat := 0
@@ -52,6 +56,7 @@ structure OState where
   rwCode : Nat := 0
   reads2 : List ReadObs := []
   bad : Option String := none     -- malformed observation
+  carry : Option String := none   -- first violated clause of an earlier archive of the same case
 
 def parseOct (s : String) : Nat := s.toList.foldl (fun a c => a * 8 + (c.toNat - 48)) 0
 def parseHexNat (s : String) : Nat := s.toList.foldl (fun a c => a * 16 + (LA.hexDigit c).getD 0) 0
@@ -59,6 +64,32 @@ def parseHexNat (s : String) : Nat := s.toList.foldl (fun a c => a * 16 + (LA.he
 def hexField (ws : List String) (k : String) : List Nat :=
   match kv ws k with
   | some "-" => [] | some h => (LA.parseHex h).getD [] | none => []
+
+def parseTime (o : Option String) : Option (Int × Nat) :=
+  match o with
+  | none => none
+  | some "-" => none
+  | some t => match t.splitOn "." with
+    | [a] => a.toInt?.map (·, 0)
+    | [a, b] => a.toInt?.map (·, b.toNat?.getD 0)
+    | _ => none
+
+def parseItems (o : Option String) : List String :=
+  match o with
+  | none => [] | some "-" => [] | some l => l.splitOn ","
+
+/-- The metadata keys shared by `ent` lines and read-back lines. -/
+def parseExtras (ws : List String) : Extras :=
+  { mtimeSet := match kv ws "mtime" with | none => false | some "-" => false | some _ => true
+    atime := parseTime (kv ws "atime"), ctime := parseTime (kv ws "ctime"), btime := parseTime (kv ws "btime")
+    sparse := (parseItems (kv ws "sparse")).filterMap fun it =>
+      match it.splitOn ":" with
+      | [o, l] => match o.toNat?, l.toNat? with
+        | some o, some l => some (o, l)
+        | _, _ => none
+      | _ => none
+    acl := parseItems (kv ws "acl")
+    xattr := parseItems (kv ws "xattr") }
 
 def parseRead (obs : String) : Option ReadObs :=
   let ws := LA.words obs
@@ -87,28 +118,37 @@ def parseRead (obs : String) : Option ReadObs :=
       dev := optInt (kv ws "dev") 0, ino := optInt (kv ws "ino") 0
       nlink := (optInt (kv ws "nlink") 0).toNat }
     match (kv ws "body").map (·.splitOn ":") with
-    | some [l, h, s] => some ⟨rb, ns, l.toNat?.getD 0, h, s, false⟩
-    | some ["skipped"] => some ⟨rb, ns, 0, "", "", true⟩
+    | some [l, h, s] => some ⟨rb, ns, l.toNat?.getD 0, h, s, false, parseExtras ws⟩
+    | some ["skipped"] => some ⟨rb, ns, 0, "", "", true, parseExtras ws⟩
     | _ => none
 
 /-- The body a reader must deliver for a written entry: what was accepted, zero filled
 to the declared size. -/
-def expectedBody (e : Entry) (seed len : Nat) : List Nat :=
+def expectedBody (e : Entry) (seed len : Nat) (sparse : List (Nat × Nat) := []) : List Nat :=
   let size := e.sizeV.toNat
-  let given := (List.range (min len size)).map (bodyByte seed)
+  -- with a sparse map the harness hands over NUL bytes outside the listed data regions
+  let isData (i : Nat) : Bool := sparse.isEmpty || sparse.any fun r => r.1 ≤ i && i < r.1 + r.2
+  let given := (List.range (min len size)).map fun i => if isData i then bodyByte seed i else 0
   given ++ List.replicate (size - given.length) 0
 
 def accepted (f : WFmt) (w : Written) : Bool := w.hst == "ok" || (w.hst == "warn" && f.warnStores)
 
+/-- `norm` completed by what the extras say: an unset mtime, and the Joliet view of an image. -/
+def normX (f : WFmt) (joliet : Bool) (e : Entry) (x : Extras) : Exp :=
+  let n := norm f e
+  let n := if x.mtimeSet then n else { n with mtime := unsetMtimeReads f, mtimeNs := none }
+  if joliet then n.joliet e.ftype else n
+
 /-- Check one (written, read) pair. -/
-def checkPair (c02 : Bool) (f : WFmt) (tag : String) (w : Written) (r : ReadObs) : Option String :=
+def checkPair (c02 : Bool) (f : WFmt) (tag : String) (w : Written) (r : ReadObs) (joliet : Bool := false) : Option String :=
   if c02 && representable f w.e && w.hst != "ok" then
     some s!"C02 {tag} representable entry not accepted status={w.hst}"
   else if w.hst != "ok" then none        -- reported: nothing is promised about the stored value
   else if w.e.path.isNone then some s!"C10 {tag} status=ok field=path missing mandatory field"
   else if w.e.ftype = .none && w.e.hard.isEmpty then some s!"C10 {tag} status=ok field=type missing mandatory field"
   else
-    match (norm f w.e).mismatch r.rb r.nsec with
+    match ((normX f joliet w.e w.x).mismatch r.rb r.nsec).orElse
+          (fun _ => if joliet then none else Extras.mismatch f w.e.mtime w.e.sizeV.toNat w.x r.x) with
     | some m => some s!"C10 {tag} status=ok field={m}"
     | none =>
       if r.rb.st != .ok then some s!"C10 {tag} status=ok field=readstatus read={r.rb.st.str}"
@@ -144,8 +184,9 @@ def rewriteVerdict (s : OState) (f : WFmt) : Option String :=
     refused.orElse fun _ =>
     if items.any (fun p => p.2 == "fatal") then none else     -- C10 territory
     let check (r1 : ReadObs) (h : String) (r2 : ReadObs) : Option String :=
-      if h != "ok" || !representable g r1.rb.toEntry then none else    -- unrepresentable but accepted: C10's business
-      match (norm g r1.rb.toEntry).mismatch r2.rb r2.nsec with
+      if h != "ok" || !representable g r1.rb.toEntry || !r1.x.inRange g then none else    -- unrepresentable but accepted: C10's business
+      match ((normX g false r1.rb.toEntry r1.x).mismatch r2.rb r2.nsec).orElse
+            (fun _ => Extras.mismatch g (r1.rb.mtime.getD 0) (r1.rb.size.getD 0).toNat r1.x r2.x) with
       | some m => some s!"C02 {tag} status=ok field={m}"
       | none =>
         if (norm g r1.rb.toEntry).body && (norm f r1.rb.toEntry).body && !r1.skipped
@@ -183,7 +224,11 @@ def verdict (s : OState) : String :=
     if s.closeSt.startsWith "!" then s!"C02 f={f.name} crashed in archive_write_close" else
     if !s.closed then "ok" else
     let acc := s.written.filter (accepted f)
-    let tag := if s.filter == "none" then s!"f={f.name}" else s!"f={f.name} filter={s.filter}"
+    let hasSub (h n : String) : Bool := (h.splitOn n).length > 1
+    -- the Joliet tree is what is read when Rock Ridge is switched off on either side
+    let joliet := f == .iso9660 && (hasSub s.ropt "!rockridge" || hasSub s.wopt "!rockridge")
+    let jmax := if hasSub s.wopt "joliet=long" then 103 else 64
+    let tag := (if s.filter == "none" then s!"f={f.name}" else s!"f={f.name} filter={s.filter}") ++ (if joliet then " view=joliet" else "")
     -- a header refusal that is FATAL kills the handle: every later entry is rejected too, which is
     -- not "a refused entry leaves an archive that still reads back as the accepted entries"
     if s.written.any (·.hst == "fatal") then s!"C10 {tag} refusal was fatal: the archive cannot take further entries"
@@ -207,11 +252,15 @@ def verdict (s : OState) : String :=
         let same (r : ReadObs) (w : Written) : Bool :=
           let p := (norm f w.e).path.getD []
           r.rb.path == p || r.rb.path == p ++ [slash] || r.rb.path ++ [slash] == p
-        let oks := acc.filter (·.hst == "ok")
-        let warns := acc.filter (·.hst != "ok")
+        -- (Joliet: a name the UCS-2 tree cannot hold unchanged is mangled, like a warned one)
+        let plain (w : Written) : Bool := w.hst == "ok" && (!joliet || jolietSafe jmax ((norm f w.e).path.getD []))
+        let oks := acc.filter plain
+        let warns := acc.filter (fun w => !plain w)
+        let twice (w : Written) : Bool := (acc.filter fun v => (norm f v.e).path == (norm f w.e).path).length > 1
         let miss := oks.findSome? fun w =>
           match s.reads.find? (fun r => same r w) with
-          | some r => checkPair s.c02 f tag w { r with rb := { r.rb with path := (norm f w.e).path.getD [] } }
+          | some r => (checkPair s.c02 f tag w { r with rb := { r.rb with path := (norm f w.e).path.getD [] } } joliet).map
+                        fun m => if twice w then m ++ " (pathname written twice)" else m
           | none => some s!"C10 {tag} accepted entry not read back path={LA.toHex ((norm f w.e).path.getD [])}"
         miss.orElse fun _ =>
           let strangers := s.reads.filter fun r =>
@@ -245,7 +294,12 @@ def oStep (s : OState) (op obs : String) : OState × String :=
   match LA.words op with
   | "open" :: ws =>
     let name := (kv ws "f").getD ""
+    -- a case may hold several archives: the one just finished is judged before the next starts
+    let v := verdict s
+    let carry := s.carry.orElse fun _ => if v == "ok" then none else some v
     ({ s with fmt := WFmt.ofName name, fmtName := name, filter := (kv ws "filter").getD "none", written := [], reads := [],
+              wopt := (kv ws "opt").getD "", ropt := (kv ws "ropt").getD "", carry := carry,
+              rwFmt := none, rwH := [], reads2 := [], closeSt := "", closeEnd := "",
               closed := false, aborted := false }, "-")
   | "ent" :: ws =>
     let e := parseEntry ws
@@ -256,9 +310,10 @@ def oStep (s : OState) (op obs : String) : OState × String :=
         | [sd, ln] => (sd.toNat?.getD 0, ln.toNat?.getD 0)
         | _ => (0, 0)
     -- what the entry looks like to the reader: size as the writer declares it
-    let body := if e.sizeV ≤ 65536 then expectedBody e seed len else []
+    let x := parseExtras ws
+    let body := if e.sizeV ≤ 65536 then expectedBody e seed len x.sparse else []
     let w : Written := { e := e, hst := hst, bodyLen := body.length, bodyHash := LA.fnv1a body,
-                         hasBody := e.sizeV ≤ 65536 && (kv ws "nofinish").isNone }
+                         hasBody := e.sizeV ≤ 65536 && (kv ws "nofinish").isNone, x := x }
     if hst == "?" then ({ s with bad := some "ent line without status" }, "-")
     else ({ s with written := s.written ++ [w] }, "-")
   | [c] =>
@@ -268,7 +323,7 @@ def oStep (s : OState) (op obs : String) : OState × String :=
               , closeCode := parseHexNat ((kv ws "fmt").getD "0")
               , closeN := ((kv ws "n").bind String.toNat?).getD 0
               , closeEnd := (kv ws "end").getD "?", closeSt := if obs.startsWith "!" then "!crash" else (kv ws "c").getD "?" }, "-")
-    else if c == "done" then (s, verdict s)
+    else if c == "done" then (s, match s.carry with | some v => v | none => verdict s)
     else (s, "-")
   | "rewrite" :: ws =>
     let o := LA.words obs
